@@ -27,7 +27,8 @@ theorem facts_hold :
     recordNeedsSetup = true ∧ serverPortsRule = true ∧ anyPortIs0or1 = true ∧
     interleavedConsecutive = true ∧ channelInUseRule = true ∧ profileMustMatch = true ∧
     unexpectedFrameFatal = true ∧ serverRequestOnlyOptions = true ∧ mediaURLReportsParseError = true ∧
-    closeCancelsAndWaits = true ∧ redirectCap = true ∧ teardownKeepsMustClose = true ∧ maxRedirects = 10 ∧
+    closeCancelsAndWaits = true ∧ setupClosesListenersOnFailure = true ∧ doCloseStopsReader = true ∧
+    doCloseClosesMedias = true ∧ redirectCap = true ∧ teardownKeepsMustClose = true ∧ maxRedirects = 10 ∧
     statusOK = 200 ∧ statusMovedPermanently = 301 ∧ statusUseProxy = 305 ∧ statusUnauthorized = 401 ∧
     statusNotFound = 404 ∧ statusUnsupportedTransport = 461 := by
   decide
